@@ -1,12 +1,110 @@
-"""C01: decided on the scenario model (Model/Rules.v): theorems in Properties/C01.v about what acceptance guarantees;
-tie: whole validator vs model on conformant scenarios and on single-fault mutants owned by C01."""
-import scen_check
+"""C01: accepted schemas contain no dangling or wrong-kind references.
+Proof: Properties/C01.v (acceptance by the model implies that every reference denotes exactly one entity of an
+allowed kind and that attribute paths follow declared attributes).  Tie: whole validator vs model on conformant
+scenarios and on single-reference faults; plus the property's second sentence checked directly on the
+implementation: retargeting any single reference of a shipped valid schema must be rejected."""
+import random, json, glob, os, copy, re, collections
+import scen_check, impl, common
+
 LEVEL = "proof"
-OWNERS = ("C01",)
+KINDS = ["party", "object_type", "object_promise", "action", "checkpoint", "thread_group"]
+REF = re.compile(r"^(schema:\{[^}]+\}\.)?(party|object_type|object_promise|action|checkpoint|thread_group):(\d+|\{[^}]+\})((\.[^.]+)*)$")
+# positions whose reference may carry an attribute path
+PATH_POSITIONS = {("compare", "left", "ref"), ("compare", "right", "ref"), ("spawn", "foreach"), ("operation", "appends_objects_to"),
+                  ("traverse", "ref"), ("apply", "from"), ("left", "ref"), ("right", "ref"), ("ref",), ("from",), ("foreach",), ("appends_objects_to",)}
+
+
+def strings(x, p=()):
+    if isinstance(x, dict):
+        for k, v in x.items():
+            yield from strings(v, p + (k,))
+    elif isinstance(x, list):
+        for i, v in enumerate(x):
+            yield from strings(v, p + (i,))
+    elif isinstance(x, str):
+        yield p, x
+
+
+def setp(d, p, v):
+    d = copy.deepcopy(d)
+    cur = d
+    for k in p[:-1]:
+        cur = cur[k]
+    cur[p[-1]] = v
+    return d
+
+
+def allows_path(p):
+    keys = tuple(k for k in p if isinstance(k, str))
+    return keys[-1:] in PATH_POSITIONS or keys[-2:] in PATH_POSITIONS or keys[-3:] in PATH_POSITIONS
+
+
+def sweep(ctx, rng, limit):
+    files = sorted(glob.glob(os.path.join(ctx.repo_copy, "schemas", "test", "*.json")))
+    bases = []
+    for f in files:
+        try:
+            bases.append((os.path.basename(f), json.load(open(f))))
+        except Exception:
+            pass
+    pool = impl.Pool(ctx)
+    ok = [b for b, r in zip(bases, pool.validate_many([b[1] for b in bases])) if r["outcome"] == "accept"]
+    cases = []
+    for name, base in ok:
+        for p, sv in strings(base):
+            m = REF.match(sv)
+            if not m:
+                continue
+            pre, kind, rid, path = m.group(1) or "", m.group(2), m.group(3), m.group(4)
+            muts = [("missing-id", pre + kind + ":99999" + path), ("missing-alias", pre + kind + ":{no such thing}" + path)]
+            allowed = {"action", "checkpoint"} if p and p[-1] == "to_ref" else {kind}
+            for k2 in KINDS:
+                if k2 not in allowed:
+                    muts.append(("kind-" + k2, pre + k2 + ":0" + path))
+            muts.append(("extend-path", sv + ".zzz_undeclared"))
+            for mname, nv in muts:
+                cases.append((name, p, sv, mname, nv, setp(base, p, nv)))
+    if len(cases) > limit:
+        cases = rng.sample(cases, limit)
+    res = pool.validate_many([c[5] for c in cases])
+    pool.close()
+    return cases, res, len(ok)
 
 
 def run(ctx):
     scen_check.scenario_check(
-        ctx, owners=OWNERS, n_valid=60, n_mut=260,
-        rule="conformant scenarios (half with thread groups, two renderings each) and single-fault mutants owned by C01 (see harness/mutators.py), each mutant applied to a fresh conformant scenario; non-trivial = every mutant and every conformant scenario with a checkpoint; distinct by abstract scenario",
-        trusted=[], prop_files=PROP_FILES if "PROP_FILES" in globals() else None)
+        ctx, owners=("C01",), n_valid=50, n_mut=260,
+        rule="conformant scenarios and single-reference faults (dangling id / alias, wrong kind at every reference position, undeclared attribute inside or at the end of an operand path) + every single-reference retargeting of the shipped valid schemas (missing id, missing alias, each of the 5 other kinds, path extension), sampled in the quick tier; distinct by abstract scenario or by (file, position, mutation)",
+        trusted=["the retargeting sweep uses the property's own second sentence as oracle (a retargeted reference must be rejected)"])
+    rng = random.Random(ctx.seed + 1)
+    cases, res, n_ok = sweep(ctx, rng, 1500 if ctx.tier == "quick" else 10 ** 9)
+    accepted = [(c, r) for c, r in zip(cases, res) if r["outcome"] == "accept"]
+    for c, r in zip(cases, res):
+        if r["outcome"] == "raise":
+            ctx.notes.append("retargeting raised (C12's domain): %s %s -> %s: %s" % (c[0], c[2], c[4], r["exc"]))
+    kf, bad = [], []
+    for c, r in accepted:
+        name, p, sv, mname, nv, doc = c
+        if mname == "extend-path" and not allows_path(p):
+            kf.append(c)
+        else:
+            bad.append((c, r))
+    seen = set()
+    for c, r in bad:
+        key = (c[3], tuple(k for k in c[1] if isinstance(k, str)))
+        if key in seen:
+            continue
+        seen.add(key)
+        if len(seen) > 4:
+            break
+        ctx.violation({"what": "a retargeted reference is accepted", "file": c[0], "position": [str(x) for x in c[1]],
+                       "from": c[2], "to": c[4], "mutation": c[3], "document": c[5]})
+    if kf:
+        pos = sorted(set(".".join(k for k in c[1] if isinstance(k, str)) for c in kf))
+        ctx.known_finding("extending a reference by an undeclared attribute is accepted at positions whose reference takes no path (only the head is resolved): %s; e.g. %s -> %s in %s" % (", ".join(pos), kf[0][2], kf[0][4], kf[0][0]))
+    cov = ctx.coverage
+    cov["evaluations"] = cov.get("evaluations", 0) + len(cases)
+    cov["distinct_nontrivial"] = cov.get("distinct_nontrivial", 0) + len(cases)
+    cov["retarget_sweep"] = {"shipped_valid_schemas": n_ok, "mutants": len(cases), "accepted": len(accepted), "accepted_known_finding_class": len(kf),
+                             "by_mutation": dict(collections.Counter(c[3].split("-")[0] + "/" + r["outcome"] for c, r in zip(cases, res)))}
+    cov["disagreements_checked"] = cov.get("disagreements_checked", 0) + len(bad)
